@@ -223,6 +223,9 @@ class Slice(object):
     def _run_negative_islice(self, flow):
         from collections import deque
         start, stop, step = self._start, self._stop, self._step
+        # the flow is consumed by several loops in turn:
+        # a container (list, range) must not be restarted by each of them
+        flow = iter(flow)
 
         def fill_deque(flow, maxlen):
             # Fill a deque with exactly maxlen values from *flow*
